@@ -197,7 +197,7 @@ def plan(tier: str) -> list[dict]:
                    {"mode": "games", "max_n": 12, "min_n": 11, "examples": 3, "cost": 4}])
     return ([{"mode": "basis", "ns": [1, 2, 3, 4, 5, 6], "cost": 2}, {"mode": "basis", "ns": [7], "cost": 5},
              {"mode": "basis", "ns": [8], "cost": 12}, {"mode": "basis", "ns": [9], "cost": 40}]
-            + [{"mode": "games", "max_n": 7, "examples": 1500, "cost": 10} for _ in range(8)]
+            + [{"mode": "games", "max_n": 7, "examples": 6000, "cost": 10} for _ in range(8)]
             + [{"mode": "games", "max_n": 10, "min_n": 8, "examples": 80, "cost": 12} for _ in range(4)]
             + [{"mode": "games", "max_n": 13, "min_n": 11, "examples": 12, "cost": 14} for _ in range(3)])
 
